@@ -5,7 +5,6 @@ const SUBLANG_SHIFT: i32 = 10;
 
 const LANG_NEUTRAL: u16 = 0x0;
 const SUBLANG_NEUTRAL: u16 = 0x0;
-const SUBLANG_CUSTOM_UNSPECIFIED: u16 = 0x4;
 
 // ========================================================================= //
 
@@ -57,10 +56,8 @@ impl Language {
                             return Language::new(lang_code, sublang_code);
                         }
                     }
-                    return Language::new(
-                        lang_code,
-                        SUBLANG_CUSTOM_UNSPECIFIED,
-                    );
+                    // Unknown region: fall back to the bare language.
+                    return Language::new(lang_code, SUBLANG_NEUTRAL);
                 } else {
                     return Language::new(lang_code, SUBLANG_NEUTRAL);
                 }
